@@ -22,7 +22,7 @@ func init() {
 		Technique:        "reference-model monitor: coefficient-form polynomial arithmetic in math/big (no barycentric tables) on every call + table walk through hook H4 + operand snapshot",
 		MinEvals:         map[string]int64{"quick": 2000, "thorough": 20000},
 		MinClasses:       map[string]int64{"quick": 300, "thorough": 300},
-		RequiredCounters: []string{"table_entries_checked", "quotients_via_coefficient_form", "lagrange_vectors_checked"},
+		RequiredCounters: []string{"edge_value_calls_before_coefficients", "table_entries_checked", "quotients_via_coefficient_form", "lagrange_vectors_checked"},
 		Assumptions:      []string{"math/big polynomial arithmetic over F_r is the oracle; its two routes (coefficient form, evaluation form) are cross-checked in the oracle self-test"},
 		Plan: func(tier string) []Child {
 			return shardsVar(pick(tier, 8, 16), Child{Flavour: "plain", NCPU: 1})
@@ -241,6 +241,15 @@ func runC18(c *mon.Ctx) {
 		}
 		name, z := name, pts[name]
 		c.Case("barycentric/"+name, func() {
+			// history: legal calls with edge values first (a batch inversion of a vector with zeros, coefficients asked for
+			// a point of the domain - result unused); the coefficients for z must not depend on them
+			if j%2 == 0 {
+				fieldEdgeCalls(nil, c.Rand("edge/"+name))
+				var zd fr.Element
+				zd.SetUint64(uint64(j*37) % 256)
+				mon.Try(func() { pw.ComputeBarycentricCoefficients(zd) })
+				c.Count("edge_value_calls_before_coefficients", 1)
+			}
 			b := pw.ComputeBarycentricCoefficients(FrFromBig(z))
 			want := ref.LagrangeAt(z)
 			if len(b) != 256 {
